@@ -723,7 +723,7 @@ pub fn c15(tier: Tier, seed: u64) -> Verdict {
         let strat = || {
             // pieces are short, medium or long (block-sized and beyond), so that any internal staging is crossed
             (vec(prop_oneof![4 => text_strategy(40), 2 => text_strategy(300), 1 => text_strategy(1500)], 0..=8), prop_oneof![3 => Just(None), 2 => (0u16..=8).prop_map(Some)])
-                .prop_map(|(pieces, err_at)| Pieces { pieces, err_at, panic_at: None })
+                .prop_map(|(pieces, err_at)| Pieces { pieces, err_at, panic_at: None, fx: None })
                 .boxed()
         };
         let m = run_sharded("C15", seed, 1, n, strat, |d: &Pieces, _| {
